@@ -432,6 +432,17 @@ def run(prog, tier, seed):
     dep = adopt(T.results(T(c19.rule_res5, prog), T(_ltl0, prog),
                           T(_ltl4, prog), T(_ltl3, prog), T(_text, prog),
                           T(_ctl13, prog), T(c12.rule_scc, prog),
-                          T(c12.rule_scc6, prog)),
+                          T(c12.rule_scc6, prog),
+                          T(c12.rule_scc9, prog)),
                 PROP, 'order / naming sensitive spot')
+    # presentation of L: the same set object given to several states, or
+    # equal sets, must be the same structure -- the constructor and the
+    # clone the checkers relabel must copy the label collections
+    from . import c13, c14
+    adj = T(c13.adjacency_field, prog)
+    if adj:
+        dep = dep + adopt(T.results(T(c14.rule_k1, prog, adj),
+                                    T(c14.rule_k4, prog, adj)), PROP,
+                          'label sets shared between states of one '
+                          'presentation')
     return T.results(r) + dep, expl, assumptions, T.extra()
